@@ -170,6 +170,140 @@ def view(klepto, backend, w, keys):
     return v
 
 
+# ---------------------------------------------------------------------------------------------
+# scheduling points (C14): the worker stops before every file-system call of the archive and waits
+# ---------------------------------------------------------------------------------------------
+
+def install_stepping(root):
+    """before every file-system call on the archive the worker prints 'AT <label>' and waits for a line on stdin.
+    Calls seen through audit events: open, os.mkdir, os.rename, os.remove, os.rmdir, os.scandir / os.listdir.
+    Not audited, so wrapped here: the first write() and the close() of a file opened for writing, os.path.exists."""
+    import builtins
+    import io
+    out = sys.__stdout__
+    inp = sys.stdin
+    root = os.path.realpath(root)
+    busy = [False]
+
+    def at(label):
+        if busy[0]:
+            return
+        busy[0] = True
+        try:
+            out.write('AT %s\n' % label)
+            out.flush()
+            inp.readline()
+        finally:
+            busy[0] = False
+
+    def mine(path):
+        try:
+            if isinstance(path, bytes):
+                path = path.decode()
+            if not isinstance(path, str):
+                return False
+            return os.path.realpath(path).startswith(root) or path.startswith(root)
+        except Exception:
+            return False
+
+    def hook(event, args):
+        if busy[0]:
+            return
+        if event == 'open':
+            path, mode, flags = args
+            if mine(path) and '__pycache__' not in str(path):
+                if isinstance(flags, int) and flags & (os.O_WRONLY | os.O_RDWR | os.O_CREAT):
+                    at('creat')
+                else:
+                    at('open')
+        elif event == 'os.mkdir':
+            if mine(args[0]):
+                at('mkdir')
+        elif event == 'os.rename':
+            if mine(args[0]):
+                at('rename-away' if '.I_' in str(args[1]) and '.I_' not in str(args[0]) else 'rename')
+        elif event == 'os.remove':
+            if mine(args[0]) or (len(args) > 1 and args[1] is not None):
+                at('unlink')
+        elif event == 'os.rmdir':
+            if mine(args[0]) or (len(args) > 1 and args[1] is not None):
+                at('rmdir-root' if os.path.realpath(str(args[0])) == root else 'rmdir')
+        elif event in ('os.scandir', 'os.listdir'):
+            if mine(args[0]):
+                at('scandir-root' if os.path.realpath(str(args[0])) == root else 'scandir')
+    sys.addaudithook(hook)
+
+    real_open = builtins.open
+
+    class Proxy(object):
+        def __init__(self, f):
+            self._f = f
+            self._wrote = False
+
+        def write(self, data):
+            if not self._wrote:
+                self._wrote = True
+                at('write')
+            return self._f.write(data)
+
+        def close(self):
+            if not self._f.closed:
+                at('close')
+            return self._f.close()
+
+        def __enter__(self):
+            return self
+
+        def __exit__(self, *a):
+            self.close()
+            return False
+
+        def __getattr__(self, name):
+            return getattr(self._f, name)
+
+        def __iter__(self):
+            return iter(self._f)
+
+    def open_(file, mode='r', *a, **k):
+        f = real_open(file, mode, *a, **k)
+        if mine(file) and any(c in mode for c in 'wax+'):
+            return Proxy(f)
+        return f
+    builtins.open = open_
+    io.open = open_
+    real_exists = os.path.exists
+
+    def exists(path):
+        if mine(path):
+            at('stat')
+        return real_exists(path)
+    os.path.exists = exists
+
+
+class StepCursor(object):
+    """sqlite: a scheduling point before every statement; a data-changing statement and its commit are one step
+    (the controller never parks a process inside a transaction, so it cannot itself cause 'database is locked')"""
+    def __init__(self, cur, at):
+        self._c, self._at = cur, at
+
+    def execute(self, sql, *a):
+        self._at('exec-' + sql.split()[0].lower())
+        return self._c.execute(sql, *a)
+
+    def __getattr__(self, name):
+        return getattr(self._c, name)
+
+
+def install_sql_stepping(a):
+    out, inp = sys.__stdout__, sys.stdin
+
+    def at(label):
+        out.write('AT %s\n' % label)
+        out.flush()
+        inp.readline()
+    a._engine = StepCursor(a._engine, at)
+
+
 def main():
     repo, backend, w, role, arg = sys.argv[1:6]
     sys.path.insert(0, repo)
@@ -182,21 +316,29 @@ def main():
         sys.stdout.flush()
         return
     a = raw_open(klepto, backend, w)
-    for k, v in enumerate(spec['init'], 1):
-        if v:
-            a[keyobj(keys, k)] = v
+    if not spec.get('noinit'):
+        for k, v in enumerate(spec['init'], 1):
+            if v:
+                a[keyobj(keys, k)] = v
     op = spec['op']
     if op['t'] == 'dump':
         c = klepto._archives.cache(archive=a)
         c[keyobj(keys, op['k'])] = op['v']
         c[keyobj(keys, op['k2'])] = op['v2']
         a = c
+    if role == 'step':
+        if spec.get('noinit'):
+            pass
+        if backend.startswith('sql'):
+            install_sql_stepping(a.archive if op['t'] == 'dump' else a)
+        else:
+            install_stepping(w)
     sys.stdout.write('ready\n')
     sys.stdout.flush()
     sys.stdin.readline()
     res = do_op(klepto, backend, w, keys, a, op)
     try:
-        sys.stdout.write(json.dumps(res) + '\n')
+        sys.stdout.write(('RES ' if role == 'step' else '') + json.dumps(res) + '\n')
         sys.stdout.flush()
     finally:
         os._exit(0)
